@@ -1284,7 +1284,7 @@ def run(ctx: vf.Ctx):
 
     t0 = time.time()
     # ---- exact stream
-    for _ in range(ctx.n(360, 6000)):
+    for _ in range(ctx.n(300, 6000)):
         spec, extra = gen_exact_case(rng, 64 if rng.random() < 0.9 else 144)
         run_exact_case(run_, rng, spec, extra)
         if len(ctx.samples) < 2 and len(spec['ops']) >= 3:
@@ -1299,7 +1299,7 @@ def run(ctx: vf.Ctx):
     tm['builder'] = round(time.time() - t0, 1)
     t0 = time.time()
     # ---- parameter edit histories
-    for _ in range(ctx.n(200, 3000)):
+    for _ in range(ctx.n(160, 3000)):
         rad = gen_radixes(rng, 36)
         spec = gen_bounded_spec(rng, rad, rng.randint(1, 6), 1, True, False)
         guarded(ctx, 'param_edits', dict(stream='param_edits', spec=strip_derived(spec)), lambda: check_param_edits(run_, rng, spec))
